@@ -534,7 +534,7 @@ class SetterScenario(BaseScenario):
                 raise Violation("C03", "merge_lost_stored", f"{cls_name}.metadata assigned on a re-opened entity: {compare._short(live.get('metadata'))}, "
                                 f"expected the stored keys merged: {compare._short(want)}", {"cls": cls_name, "attr": attr})
         if pending and expected is not None:
-            other = self.diff_views(_patched(expected, live, attr), live, "BEFORE-CLOSE", "LIVE")
+            other = self.diff_views(_patched(expected, live, attr, getattr(owner, "_attribute_map", None)), live, "BEFORE-CLOSE", "LIVE")
             if other:
                 raise Violation("C03", "lost_on_reopen", f"{cls_name}: {other[0]} (seen after assigning {attr} on the re-opened entity)",
                                 {"cls": cls_name, "field": _field(other[0]), "last": attr})
@@ -548,7 +548,7 @@ RELATED = {
 }
 
 
-def _patched(expected: dict, live: dict, attr: str) -> dict:
+def _patched(expected: dict, live: dict, attr: str, attr_map: dict | None = None) -> dict:
     """`expected` with every field the assignment of `attr` may legitimately move taken from `live`."""
     import copy
 
@@ -564,6 +564,7 @@ def _patched(expected: dict, live: dict, attr: str) -> dict:
     if attr == "values":
         out["values"] = live.get("values")
     keys = set(RELATED.get(attr, [])) | {attr, KEY_MAP.get(attr, attr)}
+    keys |= {stored for stored, py in (attr_map or {}).items() if py == attr}     # e.g. 'Current line property ID' -> current_line_id
     for section in ("attrs", "arrays"):
         for key in set(out.get(section, {})) | set(live.get(section, {})):
             if any(k.lower().replace("_", " ") == key.lower().replace("_", " ") for k in keys) or key.lower().replace(" ", "_") == attr:
